@@ -210,13 +210,13 @@ def r3_append_discipline(ctx):
     R.fn(b)
     tr = ctx.tracer(follow_callers=False, follow_fields=False)
     apps = b.calls_to(r"BatchResponseBuilder::append$")
-    R.floor("C02.R3", len(apps), 2, "append sites in RpcService::batch")
+    R.floor("C02.R3", len(apps), 1, "append sites in RpcService::batch")
     nxs = {enclosing_loop_next(b, a.bb) for a in apps}
     nxs.discard(None)
     if len(nxs) != 1:
         raise AnchorLost("the entry loop of RpcService::batch")
     nx = nxs.pop()
-    some_t = None
+    some_t = none_t = None
     for sb, arms, other in flow.switch_on(b, nx.dest["l"]):
         some_t = arms.get("1")
         none_t = arms.get("0")
@@ -288,6 +288,26 @@ def r3_append_discipline(ctx):
                 tt = other if "0" in arms else arms.get("1")
                 if tt is not None and b.dominates(tt, nt[0].bb) and b.can_reach(nx.bb, sb):
                     okg = True
+        if not okg and gn and none_t is not None:
+            # the flag may be combined with is_empty() into one bool first: evaluate the code after the loop as a decision
+            # table over (a notification was seen, nothing was appended)
+            from ..interp import Interp, Sym, Unsupported
+            table = {}
+            try:
+                for seen in (True, False):
+                    for empty in (True, False):
+                        handlers = [
+                            (re.compile(r"BatchResponseBuilder::is_empty$"), lambda it, n_, a, empty=empty: empty),
+                            (re.compile(r"MethodResponse::notification$"), lambda it, n_, a: Sym("ack")),
+                            (re.compile(r"BatchResponseBuilder::finish$"), lambda it, n_, a: Sym("array")),
+                            (re.compile(r"MethodResponse::from_batch$"), lambda it, n_, a: a[0]),
+                            (re.compile(r"^std::mem::drop$|drop_in_place"), lambda it, n_, a: ()),
+                        ]
+                        env = {l: [seen] for l in gn}
+                        table[(seen, empty)] = Interp(F, call_handlers=handlers, default_sym=True).run_from(b, none_t, 0, env)
+                okg = table == {(True, True): Sym("ack"), (True, False): Sym("array"), (False, True): Sym("array"), (False, False): Sym("array")}
+            except Unsupported:
+                okg = False
         R.check(okg, "C02.R3", "after-loop:empty-ack-needs-notification", "an empty array is not acknowledged as notifications-only", "the empty acknowledgement does not require that a notification was seen (an empty array would get no InvalidRequest reply)", where(nt[0]))
         lv = tr.origins(b, fb[0].args[0])
         R.check(any(l.kind == "call" and re.search(r"BatchResponseBuilder::finish$", l.detail["callee"] or "") for l in lv), "C02.R3", "after-loop:array-from-builder", "the reply is the builder's array", "from_batch does not take the builder's finish()", where(fb[0]))
